@@ -21,7 +21,9 @@ SPEC = {
                   "networks, never yields a CA, and records the signer's fingerprint; a CA request with a signer is refused; self-signing succeeds only "
                   "for CA requests; the key's curve must equal the request's curve (and Sign accepts only the two known curves); Normalize maps every "
                   "0 < S < n to a value <= n/2 equal to S or n - S, Swap is an involution and exactly one of the two forms is low, with n the real "
-                  "P-256 group order regenerated from the code and pinned to the FIPS 186 constant. The model is tied to Sign / SignWith / "
+                  "P-256 group order regenerated from the code and pinned to the FIPS 186 constant. Re-issue: the outcome of signing under a signer does not depend on earlier signings of the same "
+                  "TBSCertificate object (C04_resign_independent, with and without a signer; the object's unexported issuer field is modelled, incl. its reset when self-signing - F30). "
+                  "The model is tied to Sign / SignWith / "
                   "p256.Normalize / Swap / IsNormalized and to `nebula-cert ca` / `nebula-cert sign` by correspondence; every issued certificate is "
                   "verified by the real VerifyCertificate against a pool of its signer and every P-256 signature is checked with p256.IsNormalized.",
     "level_note": "Trusted: Coq kernel; the hand-written model (mirrors the order of guards of SignWith, checkCAConstraints, certificateV1/V2.validate); "
